@@ -451,6 +451,11 @@ impl Report {
                 lines.push(format!("KNOWN-FINDING: property={} {} [{}] ({} cases)", self.property, sig, what, f.count));
                 continue;
             }
+            if sig.starts_with("HARNESS/") {
+                // an inconsistency inside the oracle itself is never reported as a violation
+                self.inconclusive(&format!("{} | case {} | expected {} | actual {}", sig, f.case, f.expected, f.actual));
+                continue;
+            }
             violations += 1;
             let _ = std::fs::create_dir_all(&vdir);
             let name = format!("{}_{:016x}.json", self.property, hash_str(sig));
